@@ -159,7 +159,7 @@ def r01_1(ctx):
     fl = Flow(f.node, resolver=res).run()
     found = False
     for n in ast.walk(f.node):
-        if isinstance(n, ast.Return) and n.value is not None and ast.unparse(n.value) == "self._user_selection":
+        if isinstance(n, ast.Return) and n.value is not None and ast.unparse(Resolver(f.node).resolve(n.value)) == "self._user_selection":
             found = True
             gs = fl.guards_at(n) or set()
             construct = "Choice._selection/return self._user_selection"
